@@ -9,7 +9,7 @@ META = {
                  "reader-required keys always written) for FilePreamble, BlockParameters, StorageParameters, StorageHints, "
                  "CollectionParameters, plus RFC 8618 key numbers/types; R09.2 every optional member starts read() absent; "
                  "R09.3 present-but-empty optional structures are written as one item; R09.4 no narrowing between member "
-                 "and wire; R09.5 header functions delegate to the preamble and lists keep their order. list-replaced: an array-valued member is emptied before elements are appended or replaced unconditionally by the decoded list.",
+                 "and wire; R09.5 header functions delegate to the preamble and lists keep their order. list-replaced: an array-valued member is emptied before elements are appended or replaced unconditionally by the decoded list. R09.6: no exception in a preamble reader is control-dependent on a decoded value unless the writer validates too (taint from the value readers; positive and negative control in tu/rule_controls.cpp).",
     "explanation": "Cross-check of sibling implementations (write vs read) of five structs, decided on the AST for every "
                    "preamble value; equality of text payloads is delegated to the string paths of C06/C07.",
     "trusted_base": ["clang 14 AST", "rfc8618_tables.json"],
